@@ -74,10 +74,10 @@ func (e *c47Env) waitFn(ctx context.Context, block uint64) error {
 
 type c47BlockCounter struct{ e *c47Env }
 
-func (b c47BlockCounter) WaitForBlockHeight(uint64) error            { panic("c47: unused") }
+func (b c47BlockCounter) WaitForBlockHeight(uint64) error                 { panic("c47: unused") }
 func (b c47BlockCounter) BlockHeightWaiter(uint64) (<-chan uint64, error) { panic("c47: unused") }
-func (b c47BlockCounter) CurrentBlock() (uint64, error)              { return b.e.height, nil }
-func (b c47BlockCounter) WatchBlocks(context.Context) <-chan uint64  { panic("c47: unused") }
+func (b c47BlockCounter) CurrentBlock() (uint64, error)                   { return b.e.height, nil }
+func (b c47BlockCounter) WatchBlocks(context.Context) <-chan uint64       { panic("c47: unused") }
 
 // c47Chain implements the Chain methods the three submitters use; everything else
 // panics through the nil embedded interface.
